@@ -841,22 +841,29 @@ def run_check(ctx, pid):
         if ctx.broken:
             break
 
+    # Violations are collected by kind and emitted with preference for diversity (the driver keeps five): at most two
+    # library aborts, and a slot each for the first snapshot-oracle, model-disagreement, trace-oracle, re-activation and
+    # twin failure, so that a replay shows the most specific evidence available.
+    pending = {"abort": [], "snapshot": [], "model": [], "trace": [], "react": [], "equal": []}
     nviol = 0
     # 1. crashes (assertion failures / aborts inside the library)
     for hist, line, err in crashes:
         nviol += 1
-        ctx.violation({"kind": "ops", "script": hist, "crash_at": line, "stderr": err,
-                       "what": "the library aborted (assertion / crash) while executing this call"})
+        pending["abort"].append(({"kind": "ops", "script": hist, "crash_at": line, "stderr": err,
+                                  "what": "the library aborted (assertion / crash) while executing this call"}, False))
     # 2. direct oracles evaluated by the harness
     seen = set()
+    seen_cat = set()
     for cid, text in oracle:
         pre = cid.rsplit("_", 1)[0]
-        if pre in seen:
-            continue
+        cat = "trace" if text.startswith("C20 trace") else ("react" if text.startswith("C20") else "snapshot")
         seen.add(pre)
+        if (pre, cat) in seen_cat:
+            continue
+        seen_cat.add((pre, cat))
         nviol += 1
-        ctx.violation({"kind": "ops", "script": history_of(lines, cid), "at": cid, "oracle": text,
-                       "what": "direct oracle failed on the implementation"})
+        pending[cat].append(({"kind": "ops", "script": history_of(lines, cid), "at": cid, "oracle": text,
+                              "what": "direct oracle failed on the implementation (%s)" % cat}, False))
     # 3. answers that must be equal (C01: instance with a history vs fresh twin)
     neq = 0
     for a, b, what in sc.equal:
@@ -866,17 +873,21 @@ def run_check(ctx, pid):
         neq += 1
         if ra != rb:
             pre = a.rsplit("_", 1)[0]
-            if pre in seen:
+            if (pre, "equal") in seen_cat:
                 continue
+            seen_cat.add((pre, "equal"))
             seen.add(pre)
             hist = history_of(lines, a)
+            nviol += 1
+            if len(pending["equal"]) >= 3:
+                continue
             # replace digests by dumps for the report
             det = [l.replace(" obs pop", " dump pop") for l in hist]
             dres, _, _ = run_script(hbin, det, ctx.work, tag=pid + "-det", timeout=600)
-            ctx.violation({"kind": "ops", "script": hist, "equal": [[x, y, w] for x, y, w in sc.equal if x.rsplit("_", 1)[0] == pre],
-                           "at": [a, b], "A": dres.get(a, ra)[:3000], "B": dres.get(b, rb)[:3000],
-                           "what": "instances with the same active chain differ: " + what})
-            nviol += 1
+            pending["equal"].append(({"kind": "ops", "script": hist,
+                                      "equal": [[x, y, w] for x, y, w in sc.equal if x.rsplit("_", 1)[0] == pre],
+                                      "at": [a, b], "A": dres.get(a, ra)[:3000], "B": dres.get(b, rb)[:3000],
+                                      "what": "instances with the same active chain differ: " + what}, False))
     # 4. correspondence with the model
     ncmp = nagree = 0
     dis = []
@@ -908,23 +919,36 @@ def run_check(ctx, pid):
                 if pre in bad_pre:
                     continue
                 bad_pre.append(pre)
-                if pre in seen:
-                    continue    # a concrete failing input of the same history is already reported
                 hist = history_of(lines, cid)
                 ml = model_lines_of(mlines, pre)
                 # re-run once to exclude flakiness
                 r2, _, c2 = run_script(hbin, hist, ctx.work, tag=pid + "-re", timeout=600)
                 if not c2 and norm_impl(byid[cid], r2.get(cid, "")) == got:
                     continue
-                ctx.broken.append("corr:Pop.SmDefs.%s: first disagreeing call %s of history %s: model `%s` implementation `%s`"
-                                  % (byid[cid].split()[3], cid, pre, (got or "")[:200], (want or "")[:200]))
-                ctx.violation({"kind": "ops", "script": hist, "model": ml, "at": cid, "model_answer": got, "impl_answer": want,
-                               "what": "model (Pop/SmDefs.v) and implementation disagree; the direct oracles found no "
-                                       "failing input in this history"}, no_input=True)
+                if pre not in seen:     # otherwise a concrete failing input of the same history is reported as well
+                    ctx.broken.append("corr:Pop.SmDefs.%s: first disagreeing call %s of history %s: model `%s` implementation `%s`"
+                                      % (byid[cid].split()[3], cid, pre, (got or "")[:200], (want or "")[:200]))
+                pending["model"].append(({"kind": "ops", "script": hist, "model": ml, "at": cid, "model_answer": got,
+                                          "impl_answer": want,
+                                          "what": "model (Pop/SmDefs.v) and implementation disagree; the direct oracles "
+                                                  "found no failing input in this history"}, True))
                 if len(bad_pre) >= 3:
                     break
     elif have_model is False:
         ctx.cov["trusted_base"].append("model correspondence not run: coq/Extract_Pop.v missing")
+
+    # emit: the first of every specific kind, then at most two aborts, then whatever is left
+    order = []
+    for cat in ("snapshot", "model", "trace", "react", "equal"):
+        if pending[cat]:
+            order.append(pending[cat].pop(0))
+    order += pending["abort"][:2]
+    for cat in ("snapshot", "trace", "react", "equal", "model"):
+        order += pending[cat]
+    # a model disagreement counts as "no failing input found" only when nothing concrete is reported
+    concrete = any(not ni for _, ni in order)
+    for obj, ni in order:
+        ctx.violation(obj, no_input=(ni and not concrete))
 
     # coverage
     ops = {}
